@@ -75,7 +75,7 @@ out.append("Each change below was produced by a fresh sub-agent that saw only th
            "tests and needs something specific to manifest. Each was confirmed in a scratch worktree (`bin/confirm_seed`: clean tree tests OK + demo "
            "PASS, changed tree tests OK + demo FAIL) and is kept as `seeded/<id>/` (patch.diff, demo, meta.json). `bin/seedmatrix` applies each patch to "
            "a scratch worktree (never to `/repo`), runs the quick checks against it through `VERIF_REPO` and records the result in meta.json; the table is "
-           "generated from those files. Where a check missed a change it was strengthened and the run repeated; the two changes still undetected are "
+           "generated from those files. Where a check missed a change it was strengthened and the run repeated; the changes still undetected are "
            "explained in 6.4.\n")
 out.append("| change | file : what | caught by (quick tier) | run and not caught by |\n|---|---|---|---|")
 for d in sorted(glob.glob(os.path.join(V, "seeded", "C*-m*"))):
